@@ -58,7 +58,7 @@ MANIFEST = dict(
               "terms + layout algebra composition",
 )
 FLOORS = {"C06.1": 2, "C06.2": 8, "C06.3": 6, "C06.4": 2, "C06.5": 6,
-          "C06.6": 3}
+          "C06.6": 3, "C06.7": 2}
 
 LOSSY = ("builtins.round", "numpy.round", "numpy.around", "numpy.rint",
          "numpy.trunc", "numpy.floor", "numpy.ceil", "numpy.fix",
@@ -128,6 +128,12 @@ def unknown_ops(t: T) -> List[str]:
 def check(ctx):
     prog = ctx.prog
     results = sweep(prog, "plain")
+    # bag export/import "preserves positions and orientations exactly": the
+    # message helpers must take the fields as they are (instances of C07.1)
+    from ..core import import_rules
+    n = import_rules(ctx, "c07", ("C07.1",), "C06.7",
+                     pred=lambda o: ":msg:" in o.key)
+    ctx.require(n >= 2, "C06.7: message-field instances not found")
     ctx.analysed_fn(*(FI + n for n in (
         "write_tum_trajectory_file", "write_kitti_poses_file",
         "read_tum_trajectory_file", "read_kitti_poses_file", "save_res_file",
